@@ -144,15 +144,15 @@ theorem facArgs_head (a0 a1 n b1 : List Char) (k : Nat) (c : Char) (t : List Cha
          match facTail base s2 with
          | none => none
          | some (fact, init, s5) =>
-           if !nextIs s5 ')' then none else some (.factor base fact init (wrap32 (k + 1)) 0 init)) := by
+           if !closeOk s5 then none else some (.factor base fact init (wrap32 (k + 1)) 0 init)) := by
   unfold facArgs
   rw [nextvis_opt a0 '(' _ oa paren_open_graph.1 paren_open_graph.2]
   simp only [List.tail_cons, ne_eq, not_true_eq_false, ↓reduceIte]
   rw [facCount_ok a1 n b1 k c t oa1 ob1 hn hc]
   rfl
 
-theorem nextIs_close (b : List Char) (ob : OptBlank b) : (!nextIs (b ++ [')']) ')') = false := by
-  rw [(nextIs_opt b ')' [] ob paren_close_graph.1 paren_close_graph.2).1]; rfl
+theorem nextIs_close (b : List Char) (ob : OptBlank b) : (!closeOk (b ++ [')'])) = false := by
+  rw [closeOk_opt b ob]; rfl
 
 /-- **a recognised `fac(…)` description is accepted and denotes its sequence** -/
 theorem accept_fac (s : List Char) (k : Nat) (base f init : Rat) (den : Den)
